@@ -46,6 +46,8 @@ inductive Op where
   | advance (f : Nat)            -- advance_to_file(next_file_index)
   | resume (f off : Nat)         -- request_resume(peer, file_index, last_received_offset)
   | push (off len : Nat)         -- push_replay(offset, data_len, last, body)
+  | nop                          -- set_peer / peer / replay_chunks_from / is_cancelled / cancel_reason /
+                                 -- timestamps / offsets: take the mutex, change no modelled field, no notify
   deriving DecidableEq, Repr
 
 /-- Recognised `if` conditions that may enclose a `notify_all()` call (evaluated on the state
@@ -129,6 +131,7 @@ def applyOp (t : NotifyTable) (op : Op) (s : Sh) : Sh × Bool :=
     | _ => (s, false)        -- the three early `return Err(..)` precede the call
   | .push off len =>
     ({ s with ring := s.ring ++ [(off, len)] }, t.push.fires op s)
+  | .nop => (s, false)
 
 /-! ### the waiter -/
 
